@@ -91,6 +91,9 @@ def same(a, b):
         # multi-element formats read back as tuples (lists after a pipe)
         return isinstance(a, (tuple, list)) and \
             isinstance(b, (tuple, list)) and list(a) == list(b)
+    if isinstance(a, (bytes, bytearray)) or isinstance(b, (bytes, bytearray)):
+        return isinstance(a, (bytes, bytearray)) and \
+            isinstance(b, (bytes, bytearray)) and bytes(a) == bytes(b)
     return isinstance(b, (int, float)) and a == b
 
 
@@ -611,7 +614,7 @@ def selftest():
             raw = struct.pack(fmt, K.PROBE[fmt])
         if 0 in raw:
             raise core.Internal("probe for %r has a zero byte" % fmt)
-    if len(K.ORDER) != 285 + 9 + 10 + 3 * 55 + 3 \
+    if len(K.ORDER) != 285 + 9 + 10 + 3 * 55 + 3 + 2 \
             or len(set(K.ORDER)) != len(K.ORDER):
         raise core.Internal("class table incomplete")
     # the values called "bad" do not fit, by the rules of struct alone
